@@ -35,9 +35,25 @@ var verif = func() string {
 	return "/verif"
 }()
 
+// outRoot: where evidence and replay artefacts go. Runs against another tree than /repo
+// (VERIF_REPO, i.e. mutant trials) must not overwrite the evidence of the real tree.
+func outRoot() string {
+	if os.Getenv("VERIF_REPO") != "" {
+		return filepath.Join(verif, ".work", "alt-tree")
+	}
+	return verif
+}
+
 func fileExists(p string) bool { _, err := os.Stat(p); return err == nil }
 
-const repo = "/repo"
+// repo is the tree the checks are built from: /repo, unless VERIF_REPO names another
+// checkout (used by tools/trymutant.sh to test a patched scratch worktree without touching /repo).
+var repo = func() string {
+	if r := os.Getenv("VERIF_REPO"); r != "" {
+		return r
+	}
+	return "/repo"
+}()
 
 type unitInfo struct {
 	Name   string `json:"name"`
@@ -396,7 +412,7 @@ func main() {
 		}
 		freshSigs[v.Sig] = true
 		h := sha1.Sum([]byte(v.Sig + "|" + v.Scenario))
-		dir := filepath.Join(verif, "replays", prop)
+		dir := filepath.Join(outRoot(), "replays", prop)
 		os.MkdirAll(dir, 0o755)
 		path := filepath.Join(dir, fmt.Sprintf("%x.json", h[:6]))
 		b, _ := json.MarshalIndent(map[string]any{"property": prop, "tier": *tier, "unit": v.Scenario, "violation": v}, "", " ")
@@ -443,9 +459,9 @@ func main() {
 		cov["samples"] = []any{"(no sample recorded)"}
 	}
 	ev["coverage"] = cov
-	os.MkdirAll(filepath.Join(verif, "evidence"), 0o755)
+	os.MkdirAll(filepath.Join(outRoot(), "evidence"), 0o755)
 	b, _ := json.MarshalIndent(ev, "", " ")
-	must(os.WriteFile(filepath.Join(verif, "evidence", prop+".json"), b, 0o644))
+	must(os.WriteFile(filepath.Join(outRoot(), "evidence", prop+".json"), b, 0o644))
 	fmt.Printf("%s tier=%s units=%d executions=%d states=%d exhaustive=%v fresh_violations=%d known=%d wall=%.1fs\n",
 		prop, *tier, len(unitStats), int(agg["executions"]), int(agg["states"]), exhaustive, len(freshSigs), len(knownSeen), time.Since(start).Seconds())
 	if !*keep {
@@ -478,7 +494,7 @@ func must(err error) {
 
 // build rewrites and compiles the harness (and the plain CLI binary) from /repo's working tree.
 func build(work string, race bool, cli bool) (ha string, taskBin string, err error) {
-	out, e := run(verif, buildEnv(), filepath.Join(verif, "bin", "vrewrite"), "-out", work, "-verif", verif)
+	out, e := run(verif, buildEnv(), filepath.Join(verif, "bin", "vrewrite"), "-out", work, "-verif", verif, "-repo", repo)
 	if e != nil {
 		return "", "", fmt.Errorf("vrewrite: %v\n%s", e, out)
 	}
